@@ -3,6 +3,7 @@ package props
 import (
 	"fmt"
 	"go/token"
+	"go/types"
 	"strings"
 
 	"golang.org/x/tools/go/ssa"
@@ -381,51 +382,24 @@ func r174(c *an.Ctx) {
 		}
 	}
 	c.Check(okThreshold && nErrRet > 0, rule, name+"|error exactly when errCount > allowed", fn.Pos(), "", "the final verdict is not `errCount > allowedErrors → first error, else nil`")
-	// first error kept: store to firstError guarded by firstError == nil; the counter increments once per failing response
-	okFirst := false
+	// first error kept: a response's error enters the kept error only under a condition that says "no failure has been
+	// recorded so far" (the kept error is nil, a flag is unset, a failure counter that starts at zero is at its first
+	// step) - and not under a comparison with the error budget
+	okFirst, guardOK := false, false
 	an.Instrs(fn, func(in ssa.Instruction) {
 		ph, ok := in.(*ssa.Phi)
 		if !ok || !an.IsErrorType(ph.Type()) {
 			return
 		}
-		// loop phi of firstError: the edge that carries a response error must come from a block guarded by firstError == nil
-		for i, e := range ph.Edges {
-			if _, _, f, isF := an.FieldOf(e); isF && f == "err" {
-				pred := ph.Block().Preds[i]
-				_ = pred
-				okFirst = true
-			}
-		}
-	})
-	// stronger: the assignment of response.err to firstError is only reachable through `firstError == nil`
-	guardOK := false
-	for _, b := range fn.Blocks {
-		iff, ok := b.Instrs[len(b.Instrs)-1].(*ssa.If)
-		if !ok {
-			continue
-		}
-		x, trueMeansNil, isNil := an.NilTest(iff.Cond)
-		if isNil && an.IsErrorType(x.Type()) {
-			if _, isPhi := x.(*ssa.Phi); isPhi && trueMeansNil {
-				guardOK = true
-			}
-			if _, isPhi := x.(*ssa.Phi); isPhi && !trueMeansNil {
-				guardOK = true
-			}
-		}
-	}
-	// the first error is recorded for every failing response, not only for the one that exhausts the budget
-	an.Instrs(fn, func(in ssa.Instruction) {
-		ph, ok := in.(*ssa.Phi)
-		if !ok || !an.IsErrorType(ph.Type()) {
-			return
-		}
-		for i, e := range ph.Edges {
-			if _, _, f, isF := an.FieldOf(e); !isF || f != "err" {
+		for _, lf := range an.PhiLeaves(ph) {
+			if _, _, f, isF := an.FieldOf(lf.Val); !isF || f != "err" {
 				continue
 			}
-			pred := ph.Block().Preds[i]
-			for _, ed := range an.GuardingEdges(pred.Instrs[0]) {
+			okFirst = true
+			if firstFailureGuard(lf.Conds) {
+				guardOK = true
+			}
+			for _, ed := range lf.Conds {
 				if bo, isBO := ed.If.Cond.(*ssa.BinOp); isBO && (bo.X == ssa.Value(allowed) || bo.Y == ssa.Value(allowed)) {
 					okFirst = false
 				}
@@ -980,4 +954,59 @@ func r177(c *an.Ctx) {
 		})
 	}
 	c.Count("group_action_calls", n)
+}
+
+// firstFailureGuard: one of the conditions says that nothing has been recorded yet: `kept == nil` on a loop-carried
+// error, `!seen` on a loop-carried flag, or a loop-carried counter starting at zero tested for its first step
+// (`n == 0` before, `n+1 == 1` after the increment).
+func firstFailureGuard(conds []an.CondEdge) bool {
+	startsAtZero := func(v ssa.Value) bool {
+		ph, ok := v.(*ssa.Phi)
+		if !ok {
+			return false
+		}
+		for _, e := range ph.Edges {
+			if k, isC := an.ConstInt(e); isC && k == 0 {
+				return true
+			}
+		}
+		return false
+	}
+	for _, e := range conds {
+		cond, neg := e.If.Cond, false
+		for {
+			u, isNot := cond.(*ssa.UnOp)
+			if !isNot || u.Op != token.NOT {
+				break
+			}
+			cond, neg = u.X, !neg
+		}
+		holds := e.Branch != neg
+		if x, trueMeansNil, isNil := an.NilTest(e.If.Cond); isNil {
+			if _, isPhi := x.(*ssa.Phi); isPhi && (an.IsErrorType(x.Type()) || strings.HasPrefix(x.Type().String(), "*")) && e.Branch == trueMeansNil {
+				return true
+			}
+			continue
+		}
+		if ph, isPhi := cond.(*ssa.Phi); isPhi && !holds {
+			if b, isBool := ph.Type().Underlying().(*types.Basic); isBool && b.Kind() == types.Bool {
+				return true
+			}
+		}
+		if bo, isBO := cond.(*ssa.BinOp); isBO && (bo.Op == token.EQL && holds || bo.Op == token.NEQ && !holds) {
+			k, isC := an.ConstInt(bo.Y)
+			if !isC {
+				continue
+			}
+			if k == 0 && startsAtZero(bo.X) {
+				return true
+			}
+			if add, isAdd := bo.X.(*ssa.BinOp); isAdd && add.Op == token.ADD && k == 1 {
+				if one, isOne := an.ConstInt(add.Y); isOne && one == 1 && startsAtZero(add.X) {
+					return true
+				}
+			}
+		}
+	}
+	return false
 }
